@@ -14,7 +14,7 @@ def make_cases(ctx, n):
     for i in range(n):
         opts = gen.GenOpts(single_group_labels=True, max_depth=rng.choice([1, 2, 3, 4]), max_chain=rng.choice([0, 1, 3, 6]),
                            max_pred_depth=rng.choice([0, 1, 2, 4]), redundant_parens=rng.choice([0.0, 0.2, 0.5]),
-                           p_else=rng.choice([0.2, 0.6, 0.9]), p_shared=0.0, ascii_only=True, p_cond=1.0,
+                           p_else=rng.choice([0.2, 0.6, 0.9]), p_shared=0.0, ascii_only=rng.random() < 0.7, p_cond=1.0,
                            tuples_with_idents=False, ident_pool=gen.PLAIN_IDENTS)
         prog = gen.gen_program(rng, opts)
         text = gen.render(prog, rng, rng.choice(["plain", "plain", "tight"]))
